@@ -526,7 +526,7 @@ func (p *printer) fieldList(fields *ast.FieldList, isStruct, isIncomplete bool) 
 				}
 				p.expr(f.Type)
 			} else { // interface
-				if ftyp, isFtyp := f.Type.(*ast.FuncType); isFtyp {
+				if ftyp, isFtyp := f.Type.(*ast.FuncType); isFtyp && len(f.Names) > 0 {
 					// method
 					p.expr(f.Names[0])
 					p.signature(ftyp)
@@ -615,7 +615,7 @@ func (p *printer) fieldList(fields *ast.FieldList, isStruct, isIncomplete bool) 
 			}
 			p.setComment(f.Doc)
 			p.recordLine(&line)
-			if ftyp, isFtyp := f.Type.(*ast.FuncType); isFtyp {
+			if ftyp, isFtyp := f.Type.(*ast.FuncType); isFtyp && len(f.Names) > 0 {
 				// method
 				p.expr(f.Names[0])
 				p.signature(ftyp)
